@@ -3,7 +3,7 @@
 # (applies in the agent's scratch worktree: builds, runs the unedited test suite, runs the demo with and without
 # the change) and, if everything holds, stores it under /verif/seeded/<PROP>-<mN>/.
 set -u
-P=$1; M=$2; W=/tmp/seed/$P; O=$W/out/$M
+P=$1; M=$2; W=${3:-/tmp/seed/$P}; O=${4:-$W/out/$M}
 cd $W || exit 3
 git checkout -q -- . ; git apply --check $O/patch.diff || { echo "patch does not apply"; exit 3; }
 git apply $O/patch.diff
